@@ -82,7 +82,7 @@ func init() {
 		Level:     "other",
 		Technique: "abstract interpretation: at every site that can lower a balance, entailment of (not executed ∨ witness of that account ∨ caller is that account ∨ Alphabet multisignature); sign guard on the credit leg; refusal inertness",
 		Explanation: "D1 for every store/delete of an account record in every Balance method, with x the account term that keys the record: the facts at every normal exit entail ¬executed ∨ W(x) ∨ CallerIs(x) ∨ Alpha23; a credit (stored Balance = loaded + amount) is exempt only where amount ≥ 0 is established at the store. " +
-			"D2 the public transfer has no effect on any path on which it returns false.",
+			"D2 the public transfer has no effect on any path on which it returns false. R9: a refusal is reported, not a fault: runtime.CheckWitness is asked about a caller-supplied address only with its length (20) established.",
 		NotCovered:  "correlation with run-time signer sets inside one transaction (the proof is over program paths); _deploy migration writes are gated by C16.",
 		Assumptions: []string{"lock targets are fresh addresses (the property's quantifier)"},
 		Run:         func(cx *CheckCtx) { runBalance(cx, "C02") },
@@ -356,6 +356,21 @@ func runBalance(cx *CheckCtx, prop string) {
 					}
 				}
 				cx.decide(bad == "", "refusal-inert", key, "every effect implies the result true", "the public transfer can return false after "+bad, w.pos(m.Fn.Pos()))
+				// … and a refusal is *reported* (false), not a fault: System.Runtime.CheckWitness throws for an
+				// argument that is neither a 20-byte hash nor a 33-byte key, so a caller-supplied address reaches
+				// it only with its length established
+				okW, nW := true, 0
+				for _, s := range a.Sites(func(s *Site) bool { return s.Callee == "runtime.CheckWitness" }) {
+					arg := s.Args[0]
+					if !arg.contains(func(x *Term) bool { return x == tc.from || x == tc.to }) {
+						continue
+					}
+					nW++
+					if !a.holdsAt(s.In, a.litEqC(a.litLen(arg), 20)) && !a.holdsAt(s.In, a.litEqC(a.litLen(arg), 33)) {
+						okW = false
+					}
+				}
+				cx.decide(okW && nW > 0, "refusal-inert", key+"/reported", "the witness of a caller-supplied address is asked for only with its length established (20)", "the public transfer asks runtime.CheckWitness about a caller-supplied address of unchecked length: for a malformed address the VM throws, the invocation faults instead of reporting false", w.pos(m.Fn.Pos()))
 			}
 		}
 	}
